@@ -5,6 +5,20 @@ import json, os
 HERE = os.path.dirname(os.path.abspath(__file__))
 PATH = os.path.join(HERE, "C03.json")
 old = [o for o in json.load(open(PATH)) if not o["id"].startswith("C03.x.")]
+# Quick cases of the original obligations that only run in the thorough tier now (they were the longest of the quick tier:
+# 3- and 4-byte characters 570 s / 310 s, the second base-10 fixnum case 310 s, two of the four *print-case* settings for
+# 2-byte symbol names 115 s / 150 s, measured on the loaded machine); nothing is dropped: thorough runs the full old lists.
+QUICK_MOVE = {"C03.char": [[3], [4]], "C03.fixnum": [[10, 1, 0]], "C03.symbol": [[2, 1, 1], [2, 3, 1]]}
+for o in old:
+    mv = QUICK_MOVE.get(o["id"])
+    if mv:
+        c = o["cases"]
+        if "thorough" not in c:
+            c["thorough"] = list(c["quick"])
+        for m in mv:
+            if m not in c["thorough"]:
+                c["thorough"].append(m)
+        c["quick"] = [x for x in c["quick"] if x not in mv]
 O = []
 ROOT_FILES = ["zz_verif_c02.go"]
 
@@ -31,14 +45,14 @@ def uniq(l):
 
 
 # ---- bignums: grid value k + symbolic band, base, radix ----
-q = [(0, 10, 0, 40), (1, 10, 0, 40), (0, 16, 0, 40), (1, 16, 1, 40), (0, 36, 0, 40), (1, 2, 0, 3), (2, 10, 1, 40), (2, 8, 0, 40),
-     (3, 36, 1, 20), (4, 3, 0, 40), (5, 10, 0, 1000), (5, 7, 1, 40), (6, 10, 0, 40), (7, 16, 0, 40), (8, 36, 0, 20), (9, 36, 0, 40),
-     (2, 16, 0, 0), (6, 2, 1, 0), (8, 10, 1, 0)]
-t = list(q)
+q = [(0, 10, 0, 8), (1, 16, 1, 8),  # symbolic bands across most-positive-fixnum+1 and most-negative-fixnum
+     (0, 36, 0, 0), (1, 2, 0, 0), (2, 16, 0, 0), (2, 10, 1, 0), (3, 36, 1, 0), (4, 3, 0, 0), (5, 10, 0, 0), (5, 7, 1, 0), (6, 10, 0, 0),
+     (6, 2, 1, 0), (7, 16, 0, 0), (8, 10, 1, 0), (8, 36, 0, 0), (9, 36, 0, 0), (9, 30, 1, 0)]
+t = list(q) + [(0, 10, 0, 40), (1, 10, 0, 40), (0, 16, 0, 40), (0, 36, 0, 8), (2, 10, 1, 40), (2, 8, 0, 40), (5, 10, 0, 1000), (6, 10, 0, 40)]
 for k in range(10):
     for base in (2, 3, 8, 10, 16, 17, 30, 36):
         for radix in (0, 1):
-            t.append((k, base, radix, 40 if base <= 16 else 20))
+            t.append((k, base, radix, 0))
 ob("bignum", "VerifC03XBig", q, uniq(t),
    "integer x = K + y, K one of 10 boundary values (+-2^63, +-2^64, 2^70, 10^20, +-10^40, 2^128-1, 36^13) and y SYMBOLIC "
    "(unbounded Int, |y| <= spread given per case: the band straddles the fixnum/bignum boundary for +-2^63), printed by the real "
@@ -50,8 +64,8 @@ ob("bignum", "VerifC03XBig", q, uniq(t),
    int_mode=True, max_case_s=900, solver_timeout_ms=30000)
 
 # ---- *read-base* = *print-base*, no radix ----
-q = [(2, 8, 0), (8, 4, 1), (10, 6, 1), (16, 3, 0), (30, 2, 0), (36, 3, 0), (24, 3, 1)]
-t = list(q) + [(b, 3, l) for b in range(2, 37) for l in (0, 1)]
+q = [(2, 8, 0), (10, 6, 1), (16, 3, 0), (30, 2, 0), (36, 3, 0)]
+t = list(q) + [(8, 4, 1), (24, 3, 1)] + [(b, 3, l) for b in range(2, 37) for l in (0, 1)]
 ob("readbase", "VerifC03XReadBase", q, uniq(t),
    "fixnum x symbolic with |x| < base^digits printed without *print-radix* in *print-base* base, alone or three times inside a "
    "nested list next to a symbol, and read with *read-base* = base: the reader must take the token as the same integer",
@@ -81,11 +95,11 @@ ob("float", "VerifC03XFloat", uniq(q), uniq(t),
 
 # ---- strings, readably ----
 NSTR = 22
-q = [(0, i) for i in range(NSTR)] + [(1, 1), (1, 2), (2, 1)]
-t = list(q) + [(1, 3), (2, 2)]
+q = [(0, i) for i in range(NSTR)] + [(1, 1), (1, 2), (1, 3), (2, 1)]
+t = list(q) + [(1, 4), (2, 2)]
 ob("string", "VerifC03XString", q, t,
-   "strings printed with *print-readably*: (mode 1) n SYMBOLIC ASCII bytes - every byte value 0..127 at every position, "
-   "(mode 2) n SYMBOLIC Unicode scalar values UTF-8 encoded by the harness, (mode 0) a concrete grid (quotes, backslashes, "
+   "strings printed with *print-readably*: (mode 1) n <= 3 (thorough 4) SYMBOLIC ASCII bytes - every byte value 0..127 at every position, "
+   "(mode 2) 1 (thorough 2) SYMBOLIC Unicode scalar values (all of them except surrogates) UTF-8 encoded by the harness, (mode 0) a concrete grid (quotes, backslashes, "
    "newline, control characters, NUL, non-ASCII, text that looks like an escape).  The escaping is ojg.AppendJSONString of the "
    "external ojg module: the engine interprets its real body over the symbolic bytes (x_c03.go gives the package's table "
    "jMap its value; the printed text of the grid cases is noted and compared with the native run by the witness validation); "
@@ -94,8 +108,8 @@ ob("string", "VerifC03XString", q, t,
 
 # ---- symbols that look like signed numbers ----
 NNAMES = 27
-q = [(0, i, 10) for i in range(NNAMES)] + [(0, i, 16) for i in (0, 2, 16, 17, 19)] + [(0, 18, 36), (1, 2, 10), (1, 2, 16)]
-t = list(q) + [(0, i, b) for i in range(NNAMES) for b in (2, 16, 36)] + [(1, 3, 10), (1, 3, 16)]
+q = [(0, i, 10) for i in range(NNAMES)] + [(0, i, 16) for i in (0, 2, 16, 17, 19)] + [(0, 18, 36), (1, 2, 10)]
+t = list(q) + [(1, 2, 16)] + [(0, i, b) for i in range(NNAMES) for b in (2, 16, 36)] + [(1, 3, 10), (1, 3, 16)]
 ob("symnum", "VerifC03XSymNum", q, uniq(t),
    "symbols whose names look like signed numbers (-1 +3/4 -1.5 -1e5 +1.0d0 1+ -f +a/b ... grid of 27 names, and a SYMBOLIC "
    "name: a sign followed by 2 (thorough 3) bytes over {+ - 1 9 . / e f}) printed under *print-base* 10/16/36 and read with "
@@ -103,7 +117,7 @@ ob("symnum", "VerifC03XSymNum", q, uniq(t),
    "reader would take as a number", max_case_s=900)
 
 # ---- nested structures under the printer control variables, flat and pretty ----
-q = [(0, 0), (1, 0), (2, 0), (3, 0), (4, 4), (4, 5), (4, 6), (0, 3), (3, 3), (1, 7), (1, 8), (1, 9), (0, 1), (2, 2), (3, 1), (4, 0)]
+q = [(0, 3), (1, 7), (2, 2), (3, 1), (4, 4)]
 t = [(sh, c) for sh in range(5) for c in range(10)]
 ob("nest", "VerifC03XNest", q, t,
    "nested structures (lists of lists of vectors with dotted tails; vector of lists of vectors; depth 7; a 12-element list; "
@@ -113,11 +127,11 @@ ob("nest", "VerifC03XNest", q, t,
    "= max int (no limit); *print-miser-width* SYMBOLIC 0..200; base 16 with radix; base 2 and 36 without radix (read with "
    "*read-base* = *print-base*); *print-case* :upcase/:capitalize/nil.  Each object is printed flat AND pretty with the right "
    "margin SYMBOLIC in 1..200; both texts are read back by the real reader and must equal the original (so pretty printing "
-   "only changes white space)", reach=("read", "readpretty"), max_case_s=900, carves=["C03-integer-digits-spell-t-or-nil"])
+   "only changes white space)", reach=("read", "readpretty"), max_case_s=1500, max_depth=3000, max_steps=200000000, carves=["C03-integer-digits-spell-t-or-nil"])
 
 # ---- arrays ----
-q = [(d, 10, 0, 0) for d in range(14)] + [(1, 2, 0, 0), (1, 16, 1, 0), (7, 3, 0, 0), (7, 36, 0, 1), (1, 10, 0, 1), (8, 16, 0, 1), (2, 3, 0, 0), (13, 5, 0, 0), (4, 16, 0, 1)]
-t = [(d, b, r, pr) for d in range(14) for b in (2, 3, 4, 5, 10, 16, 36) for r in (0, 1) for pr in (0, 1)]
+q = [(d, 10, 0, 0) for d in range(14)] + [(1, 16, 1, 0), (7, 36, 0, 1), (1, 10, 0, 1), (8, 16, 0, 1), (2, 3, 0, 0), (4, 16, 0, 1)]
+t = [(d, b, r, pr) for d in range(14) for b in (2, 3, 10, 36) for r in (0, 1) for pr in (0, 1)] + [(13, 5, 0, 0), (1, 4, 0, 0), (7, 16, 1, 1)]
 ob("array", "VerifC03XArray", q, t,
    "arrays of rank 0, 2, 3, 4 (14 dimension lists incl. zero dimensions in every position) whose first two elements are "
    "SYMBOLIC fixnums (|x| < 40), the others concrete, printed with *print-array* t under *print-base* 2..36 with/without "
@@ -136,10 +150,9 @@ ob("quote", "VerifC03XQuote", uniq(q), t,
    carves=["C03-function-form-prints-as-name", "C03-quote-prefix-before-non-token"])
 
 # ---- printer control variables set from Lisp ----
-q = [(0, 10, 0, 2, 0, 0, 0, 1), (0, 16, 1, 1, 0, 1, 0, 0), (0, 2, 0, 3, 1, 2, 2, 0), (0, 36, 0, 0, 0, 3, 0, 0), (1, 10, 0, 2, 1, 0, 0, 1),
-     (1, 16, 0, 1, 0, 2, 2, 0), (1, 8, 1, 3, 0, 1, 0, 0), (2, 10, 0, 2, 1, 1, 2, 1), (2, 16, 1, 0, 0, 2, 0, 0), (2, 36, 0, 1, 0, 3, 1, 0),
-     (0, 10, 0, 2, 0, 0, 1, 0), (1, 10, 0, 2, 0, 0, 1, 0), (0, 16, 0, 2, 0, 0, 0, 1), (0, 2, 0, 2, 0, 0, 0, 1)]
-t = list(q) + [(h, b, r, pc, pr, lim, mi, a) for h in (0, 1, 2) for b in (2, 10, 16, 36) for r in (0, 1) for pc, pr, lim, mi, a in
+q = [(0, 10, 0, 2, 0, 0, 0, 1), (0, 16, 1, 1, 0, 1, 0, 0), (1, 10, 0, 2, 1, 0, 0, 1), (1, 8, 1, 3, 0, 1, 0, 0), (2, 10, 0, 2, 1, 1, 2, 1),
+     (2, 16, 1, 0, 0, 2, 0, 0), (2, 36, 0, 1, 0, 3, 1, 0), (0, 10, 0, 2, 0, 0, 1, 0), (1, 10, 0, 2, 0, 0, 1, 0), (0, 2, 0, 2, 0, 0, 0, 1)]
+t = list(q) + [(0, 2, 0, 3, 1, 2, 2, 0), (0, 36, 0, 0, 0, 3, 0, 0), (1, 16, 0, 1, 0, 2, 2, 0), (0, 16, 0, 2, 0, 0, 0, 1)] + [(h, b, r, pc, pr, lim, mi, a) for h in (0, 1, 2) for b in (2, 10, 36) for r in (0, 1) for pc, pr, lim, mi, a in
                ((0, 0, 0, 0, 0), (1, 1, 1, 2, 1), (2, 0, 2, 1, 0), (3, 1, 3, 0, 1))]
 ob("ctl", "VerifC03XCtl", q, uniq(t),
    "the printer control variables given from Lisp through the real registry: bound with let, assigned with setq (the real "
@@ -158,6 +171,14 @@ ob("var", "VerifC03XVar", q, q,
    "*print-base*) assigned with setq or bound with let holds the assigned value when evaluated: value SYMBOLIC over all "
    "non-negative fixnums (2..36 for the base), or nil",
    pkg="pkg/cl", carves=["C03-print-limit-max-int-reads-nil", "C03-print-miser-width-nil-rejected"])
+
+# ---- character names in every letter case ----
+q = [(s_, v) for s_ in range(8) for v in (0, 1, 2)] + [(0, 3), (2, 3), (5, 3), (7, 3)]
+t = [(s_, v) for s_ in range(8) for v in (0, 1, 2, 3)]
+ob("charname", "VerifC03XCharName", q, t,
+   "the text the real printer writes for the named characters (Space Newline Tab Page Return Rubout Backspace) and for a "
+   "SYMBOLIC control character (#\\u00XX) is read back by the real reader (pushChar, runeMap) as that character as printed, in "
+   "upper case, in lower case, and (variant 3) with the case of every letter SYMBOLIC", max_case_s=600)
 
 OUT = os.environ.get("C03_OUT") or PATH
 json.dump(old + O, open(OUT, "w"), indent=1)
